@@ -50,7 +50,7 @@ for d in sorted(glob.glob(V + "/seeded/*/")):
         subprocess.run(["git", "-C", "/repo", "checkout", "--", "."])
         for ev, text in saved.items():
             open(ev, "w").write(text)
-    caught = any(v["exit"] == 1 for v in det.values())
+    caught = any(v["exit"] == 1 and v["violation_lines"] > 0 for v in det.values())      # (a crash of the check is not a report)
     res[name] = {"caught": caught, "checks": det}
     notes = ""
     np_ = os.path.join(d, "notes.md")
